@@ -4,6 +4,7 @@ import math
 import random
 
 from vpm import history
+from vpm import seams
 from vpm.oracles import sphere as sp
 
 ID = "C13"
@@ -121,9 +122,9 @@ def cls_of(planet):
 
 
 def helio(planet, jd):
-    from pymeeus.Epoch import Epoch
-    L, B, R = cls_of(planet).geometric_heliocentric_position(Epoch(jd),
-                                                             tofk5=False)
+    # reference positions are taken at exactly jd (vpm/seams.py)
+    L, B, R = cls_of(planet).geometric_heliocentric_position(
+        seams.raw_epoch(jd), tofk5=False)
     return L.rad(), B.rad(), R
 
 
@@ -498,6 +499,17 @@ def run(mon, spec):
             q = jd_of_year(rng.uniform(-1995.0, 3995.0))
             mon.begin("event", [fi, q])
             case_event(mon, fi, q)
+        # queries whose events fall around the calendar seams (the result
+        # is built with Epoch(<number>), i.e. through the calendar)
+        for lab, j in seams.seam_jdes(rng, 30 if full else 5):
+            if jd_of_year(-1999.0) < j < jd_of_year(3999.0):
+                q = j - rng.uniform(0.0, 1.0) * period_of(fi) * rng.choice(
+                    (0.0, 0.5, 1.0))
+                q = max(q, jd_of_year(-1999.0))
+                mon.begin("event", [fi, q])
+                case_event(mon, fi, q)
+                mon.cls("event-near-calendar-seam", (fi, q), [planet, meth,
+                                                              lab, q])
         if kind in RANGED:
             for yr in (-2000.6, -2500.0, 4000.6, 5000.0):
                 mon.begin("range", [fi, yr])
